@@ -346,6 +346,8 @@ impl Property for C19 {
         let texts: Vec<&&Element> = all.iter().filter(|e| e.name == "text").collect();
         // (a CDATA section cannot contain its own terminator: the generator writes it with a space)
         let want = if c.carrier % 3 == 2 { expected_text(c).replace("]]>", "]] >") } else { expected_text(c) };
+        // white space alone between the tags of a shape is formatting, not a label (it stays significant inside <text>)
+        let want = if c.carrier % 3 != 0 && c.shape % 9 != 8 && author_text(c).trim().is_empty() { String::new() } else { want };
         if want.is_empty() && texts.len() <= 1 && texts.iter().all(|t| t.text_content().trim().is_empty()) {
             // no text given: nothing to place (the shape must still be laid out, which C11 checks)
             if !matches!(name, "point" | "box" | "text") && !all.iter().any(|e| e.attr("id") == Some("s") && !e.has_attr("xy") && !e.has_attr("wh")) {
